@@ -649,3 +649,301 @@ Example C03_fields2_ex_icmp_ts :
     last (spec_fields2 ex_ts (view p)) (LEth, []) =
       (LIcmp4, [(Dheader_len, DvN 20); (Dpayload, DvWin (40, 0))]).
 Proof. eexists. split; [vm_compute; reflexivity|split; vm_compute; reflexivity]. Qed.
+
+(* ==== round3 c03disp begin ==== *)
+(* ==== layer DISPATCH and CONTENT RULES of accepted views (audit round 3, top item 1) =====
+   `dispatch bs e v` (Parse/WireDispatch.v) is a DESCRIPTION of a view, not a decoder: it takes
+   the view as given and says which layer kind may stand where, read off the octets the view
+   points at -- which ether type is announced behind the link header (Ethernet II: octets
+   12..13; Linux SLL: octets 14..15, only for ARP hardware type 1 and a protocol number that is
+   not a Linux non-standard type; from_ether_type: the argument), that every link extension is
+   of the kind the type announced in front of it names (0x8100 / 0x88A8 / 0x9100 -> 802.1Q,
+   0x88E5 -> MACsec) and announces the next type itself (a MACsec payload that is encrypted or
+   changed announces nothing), at most 3 extensions, ARP / IPv4 / IPv6 behind 0x0806 / 0x0800 /
+   0x86DD (from_ip: by the version nibble), ICMPv4 / UDP / TCP / ICMPv6 behind IP number 1 / 17
+   / 6 / 58 of an unfragmented payload, and the documented content rules on what was accepted:
+   SLL packet type <= 7 and supported hardware type, MACsec version bit 0 and not (unmodified
+   /\ short length 1), IP version 4 / 6, IHL >= 5, AH decoded exactly behind protocol 51 with
+   length octet <> 0, the IPv6 extension window tiled exactly by extension headers with
+   hop-by-hop (0) only directly behind the IPv6 header and ending at the first number that is
+   none of 0 / 43 / 44 / 51 / 60, TCP data offset >= 5, ICMPv4 timestamp messages 20 octets.
+   "NO next layer" holds exactly for the documented causes (C03_dispatch_no_net_iff,
+   C03_dispatch_no_transport_iff, C03_dispatch_exts_stop).
+   Proved of the reference decoder (C03_wire_dispatch) and transferred to the slicer model
+   through the C03_from_X refinements (C03_dispatch_from_X), together with `nested` and `desc`. *)
+From EP Require Import Parse.WireDispatch Parse.StrictDispatch.
+
+Theorem C03_wire_dispatch : forall bs et v,
+  (wire_ethernet bs = VOk v -> dispatch bs EnEthernet v) /\
+  (wire_linux_sll bs = VOk v -> dispatch bs EnLinuxSll v) /\
+  (wire_ether_type bs et = VOk v -> dispatch bs (EnEtherType et) v) /\
+  (wire_from_ip bs = VOk v -> dispatch bs EnIp v).
+Proof. exact wire_dispatch. Qed.
+Print Assumptions C03_wire_dispatch.
+
+Theorem C03_dispatch_from_ethernet : forall bs p, bytes_ok bs ->
+  SlicedPacket.from_ethernet bs = Ok p ->
+  wire_ethernet bs = VOk (view p) /\
+  nested bs (view p) /\ desc bs (view p) /\ dispatch bs EnEthernet (view p).
+Proof. exact (fun bs p H => strict_dispatch_from_ethernet bs H p). Qed.
+Print Assumptions C03_dispatch_from_ethernet.
+
+Theorem C03_dispatch_from_linux_sll : forall bs p, bytes_ok bs ->
+  SlicedPacket.from_linux_sll bs = Ok p ->
+  wire_linux_sll bs = VOk (view p) /\
+  nested bs (view p) /\ desc bs (view p) /\ dispatch bs EnLinuxSll (view p).
+Proof. exact (fun bs p H => strict_dispatch_from_linux_sll bs H p). Qed.
+Print Assumptions C03_dispatch_from_linux_sll.
+
+Theorem C03_dispatch_from_ether_type : forall bs et p, bytes_ok bs ->
+  SlicedPacket.from_ether_type et bs = Ok p ->
+  wire_ether_type bs et = VOk (view p) /\
+  nested bs (view p) /\ desc bs (view p) /\ dispatch bs (EnEtherType et) (view p).
+Proof. exact (fun bs et p H => strict_dispatch_from_ether_type bs et H p). Qed.
+Print Assumptions C03_dispatch_from_ether_type.
+
+Theorem C03_dispatch_from_ip : forall bs p, bytes_ok bs ->
+  SlicedPacket.from_ip bs = Ok p ->
+  wire_from_ip bs = VOk (view p) /\
+  nested bs (view p) /\ desc bs (view p) /\ dispatch bs EnIp (view p).
+Proof. exact (fun bs p H => strict_dispatch_from_ip bs H p). Qed.
+Print Assumptions C03_dispatch_from_ip.
+
+(* the "exactly when" readings of the description *)
+Theorem C03_dispatch_no_net_iff : forall bs e v, dispatch bs e v -> e <> EnIp ->
+  (v_net v = None <->
+   match exts_announced bs (first_type bs e) (v_exts v) with
+   | None => True                       (* SLL protocol that is no ether type / modified MACsec payload *)
+   | Some et =>
+       (link_ext_type et /\ length (v_exts v) = 3%nat)       (* cap reached *)
+       \/ (~ link_ext_type et /\ ~ net_type et)              (* a type the crate does not decode *)
+   end).
+Proof. exact dispatch_no_net_iff. Qed.
+Print Assumptions C03_dispatch_no_net_iff.
+
+Theorem C03_dispatch_ip_has_net : forall bs v, dispatch bs EnIp v ->
+  v_link v = None /\ v_exts v = [] /\ v_net v <> None.
+Proof. exact dispatch_ip_has_net. Qed.
+Print Assumptions C03_dispatch_ip_has_net.
+
+Theorem C03_dispatch_no_transport_iff : forall bs e v, dispatch bs e v ->
+  (v_transport v = None <->
+   match net_payload (v_net v) with
+   | None => True                                            (* no network layer / ARP *)
+   | Some p => vip_frag p = true \/ ~ tr_number (vip_number p)
+   end).
+Proof. exact dispatch_no_transport_iff. Qed.
+Print Assumptions C03_dispatch_no_transport_iff.
+
+Theorem C03_dispatch_exts_stop : forall bs e v et, dispatch bs e v -> e <> EnIp ->
+  exts_announced bs (first_type bs e) (v_exts v) = Some et -> link_ext_type et ->
+  length (v_exts v) = 3%nat /\ v_net v = None.
+Proof. exact dispatch_exts_stop. Qed.
+Print Assumptions C03_dispatch_exts_stop.
+
+(* what `dispatch` says (definitional unfoldings; the numbers are the crate's constants as
+   regenerated from the source, Gen/ConstsAll.v) *)
+Example C03_dispatch_pin : forall bs e v,
+  dispatch bs e v =
+  (link_dispatch bs e (v_link v) /\
+   (length (v_exts v) <= 3)%nat /\
+   exts_dispatch bs (first_type bs e) (v_exts v) /\
+   match e with
+   | EnIp => ip_dispatch bs (v_net v)
+   | _ => net_dispatch bs (exts_announced bs (first_type bs e) (v_exts v)) (length (v_exts v)) (v_net v)
+   end /\
+   tr_dispatch bs (v_net v) (v_transport v)).
+Proof. reflexivity. Qed.
+Example C03_dispatch_pin_numbers : forall n,
+  vlan_type n = (n = Gen.ConstsAll.link_ether_type_impl__VLAN_TAGGED_FRAME \/
+                 n = Gen.ConstsAll.link_ether_type_impl__PROVIDER_BRIDGING \/
+                 n = Gen.ConstsAll.link_ether_type_impl__VLAN_DOUBLE_TAGGED_FRAME) /\
+  macsec_type n = (n = Gen.ConstsAll.link_ether_type_impl__MACSEC) /\
+  link_ext_type n = (vlan_type n \/ macsec_type n) /\
+  net_type n = (n = Gen.ConstsAll.link_ether_type_impl__ARP \/
+                n = Gen.ConstsAll.link_ether_type_impl__IPV4 \/
+                n = Gen.ConstsAll.link_ether_type_impl__IPV6) /\
+  tr_number n = (n = Gen.ConstsAll.net_ip_number_impl__ICMP \/ n = Gen.ConstsAll.net_ip_number_impl__UDP \/
+                 n = Gen.ConstsAll.net_ip_number_impl__TCP \/ n = Gen.ConstsAll.net_ip_number_impl__IPV6_ICMP) /\
+  ext_number n = (n = Gen.ConstsAll.net_ip_number_impl__IPV6_HEADER_HOP_BY_HOP \/
+                  n = Gen.ConstsAll.net_ip_number_impl__IPV6_ROUTE_HEADER \/
+                  n = Gen.ConstsAll.net_ip_number_impl__IPV6_FRAGMENTATION_HEADER \/
+                  n = Gen.ConstsAll.net_ip_number_impl__AUTHENTICATION_HEADER \/
+                  n = Gen.ConstsAll.net_ip_number_impl__IPV6_DESTINATION_OPTIONS) /\
+  N.to_nat Gen.ConstsAll.sliced_packet__LINK_EXTS_CAP = 3%nat.
+Proof. repeat split. Qed.
+Example C03_dispatch_pin_link : forall bs et w h ep l hw v,
+  first_type bs EnEthernet = Some (W bs 12) /\
+  first_type bs EnLinuxSll =
+    (if (W bs 2 =? Gen.ConstsAll.net_arp_hardware_id__ETHERNET) && negb (sll_nonstandard (W bs 14))
+     then Some (W bs 14) else None) /\
+  first_type bs (EnEtherType et) = Some et /\ first_type bs EnIp = None /\
+  link_dispatch bs EnEthernet (Some (VEthernet2 w)) = True /\
+  link_dispatch bs EnLinuxSll (Some (VLinuxSll h w)) =
+    (W bs 0 <= Gen.ConstsAll.link_linux_sll_packet_type__MAX_VAL /\ sll_hw_supported (W bs 2) = true) /\
+  link_dispatch bs (EnEtherType et) (Some (VEtherPayload ep)) = (vep_type ep = et) /\
+  link_dispatch bs EnIp None = True /\ link_dispatch bs EnIp (Some l) = False /\
+  link_dispatch bs EnEthernet None = False /\
+  sll_hw_supported hw =
+    ((hw =? Gen.ConstsAll.net_arp_hardware_id__NETLINK) || (hw =? Gen.ConstsAll.net_arp_hardware_id__IPGRE) ||
+     (hw =? Gen.ConstsAll.net_arp_hardware_id__IEEE80211_RADIOTAP) || (hw =? Gen.ConstsAll.net_arp_hardware_id__FRAD) ||
+     (hw =? Gen.ConstsAll.net_arp_hardware_id__ETHERNET)) /\
+  sll_nonstandard v =
+    (((1 <=? v) && (v <=? 9)) || ((12 <=? v) && (v <=? 14)) || (v =? 16) || (v =? 17)
+     || ((21 <=? v) && (v <=? 28)) || ((245 <=? v) && (v <=? 250))).
+Proof. repeat split. Qed.
+Example C03_dispatch_pin_exts : forall bs et x r w h e,
+  exts_dispatch bs (Some et) (x :: r) =
+    (ext_kind et x /\ ext_rules bs x /\ exts_dispatch bs (ext_announces bs x) r) /\
+  exts_dispatch bs None (x :: r) = False /\
+  exts_announced bs (Some et) (x :: r) = exts_announced bs (ext_announces bs x) r /\
+  exts_announced bs (Some et) [] = Some et /\
+  ext_kind et (VVlan w) = vlan_type et /\ ext_kind et (VMacsec h (VMpModified w)) = macsec_type et /\
+  ext_announces bs (VVlan w) = Some (W bs (fst w + 2)) /\
+  ext_announces bs (VMacsec h (VMpUnmodified e)) = Some (W bs (fst h + snd h - 2)) /\
+  ext_announces bs (VMacsec h (VMpModified w)) = None /\
+  ext_rules bs (VMacsec h (VMpModified w)) =
+    (B bs (fst h) < 128 /\ ~ ((B bs (fst h) / 4) mod 4 = 0 /\ B bs (fst h + 1) mod 64 = 1)).
+Proof. repeat split. Qed.
+Example C03_dispatch_pin_net : forall bs ann k nn h a p first fr x w et,
+  net_dispatch bs ann k (Some nn) = ((exists t, ann = Some t /\ net_kind t nn) /\ net_rules bs nn) /\
+  net_dispatch bs (Some et) k None =
+    ((link_ext_type et /\ k = 3%nat) \/ (~ link_ext_type et /\ ~ net_type et)) /\
+  net_dispatch bs None k None = True /\
+  net_kind et (VArp w) = (et = 2054) /\ net_kind et (VIpv4 h a p) = (et = 2048) /\
+  net_kind et (VIpv6 h first fr x p) = (et = 34525) /\
+  net_rules bs (VIpv4 h (Some w) p) =
+    (B bs (fst h) / 16 = 4 /\ 5 <= B bs (fst h) mod 16 /\ B bs (fst h + 9) = 51 /\ B bs (fst w + 1) <> 0) /\
+  net_rules bs (VIpv4 h None p) =
+    (B bs (fst h) / 16 = 4 /\ 5 <= B bs (fst h) mod 16 /\ B bs (fst h + 9) <> 51) /\
+  net_rules bs (VIpv6 h first fr x p) =
+    (B bs (fst h) / 16 = 6 /\
+     first = (if snd x =? 0 then None else Some (B bs (fst h + 6))) /\
+     chain_rules bs (S (N.to_nat (snd x))) true (B bs (fst h + 6)) (fst x) (fst x + snd x) /\
+     ~ ext_number (vip_number p)) /\
+  ip_dispatch bs (Some (VIpv4 h a p)) = net_rules bs (VIpv4 h a p) /\
+  ip_dispatch bs (Some (VIpv6 h first fr x p)) = net_rules bs (VIpv6 h first fr x p) /\
+  ip_dispatch bs (Some (VArp w)) = False /\ ip_dispatch bs None = False.
+Proof. repeat split. Qed.
+Example C03_dispatch_pin_chain : forall bs f first nh pos lim,
+  chain_rules bs (S f) first nh pos lim =
+    (if lim <=? pos then pos = lim /\ ~ ext_number nh
+     else ext_number nh /\ (nh = 0 -> first = true) /\ (nh = 51 -> B bs (pos + 1) <> 0) /\
+          pos + ext_hdr_len bs nh pos <= lim /\
+          chain_rules bs f false (B bs pos) (pos + ext_hdr_len bs nh pos) lim) /\
+  chain_rules bs O first nh pos lim = False /\
+  ext_hdr_len bs nh pos =
+    (if nh =? 44 then 8 else if nh =? 51 then (B bs (pos + 1) + 2) * 4 else (B bs (pos + 1) + 1) * 8).
+Proof. repeat split. Qed.
+Example C03_dispatch_pin_transport : forall bs nn t n w hl,
+  tr_dispatch bs nn (Some t) =
+    match net_payload nn with
+    | Some p => vip_frag p = false /\ tr_kind bs (vip_number p) t
+    | None => False
+    end /\
+  tr_dispatch bs nn None =
+    match net_payload nn with
+    | None => True
+    | Some p => vip_frag p = true \/ ~ tr_number (vip_number p)
+    end /\
+  tr_kind bs n (VIcmpv4 w) =
+    (n = 1 /\ ((B bs (fst w) = 13 \/ B bs (fst w) = 14) -> B bs (fst w + 1) = 0 -> snd w = 20)) /\
+  tr_kind bs n (VUdp w) = (n = 17) /\
+  tr_kind bs n (VTcp hl w) = (n = 6 /\ 5 <= B bs (fst w + 12) / 16) /\
+  tr_kind bs n (VIcmpv6 w) = (n = 58).
+Proof. repeat split. Qed.
+
+(* non-vacuity.  (1) the Ethernet / VLAN / IPv4 / UDP packet of C03_ex_ok is accepted by the
+   model, so C03_dispatch_from_ethernet applies to it; its view without the UDP layer is NOT
+   dispatched (number 17, unfragmented: UDP must follow), so `dispatch` is no tautology.
+   (2) four stacked 802.1Q tags: three are decoded, the fourth announced type (0x8100) stays
+   undecoded -- the cap -- and there is no network layer, in model and reference decoder.
+   (3) a MACsec SecTAG with C set: nothing follows although IPv4 octets do. *)
+Example C03_dispatch_ex :
+  (exists p, SlicedPacket.from_ethernet ex_pkt = Ok p /\
+     view p = mkVPacket (Some (VEthernet2 (0, 50))) [VVlan (14, 36)]
+                (Some (VIpv4 (18, 20) None (mkVIp 17 false LsIpv4HeaderTotalLen (38, 12))))
+                (Some (VUdp (38, 12)))) /\
+  ~ dispatch ex_pkt EnEthernet
+      (mkVPacket (Some (VEthernet2 (0, 50))) [VVlan (14, 36)]
+         (Some (VIpv4 (18, 20) None (mkVIp 17 false LsIpv4HeaderTotalLen (38, 12)))) None).
+Proof.
+  split; [eexists; split; vm_compute; reflexivity|].
+  intros (_ & _ & _ & _ & [H|H]); [discriminate H|]. apply H. right. left. reflexivity.
+Qed.
+Definition ex_cap : bytes :=
+  [1;2;3;4;5;6; 7;8;9;10;11;12; 129;0] ++ [0;1; 136;168] ++ [0;2; 145;0] ++ [0;3; 129;0] ++
+  [0;4; 8;0] ++ [69;0;0;20; 0;0;0;0; 64;17;0;0; 1;2;3;4; 5;6;7;8].
+Example C03_dispatch_ex_cap :
+  wire_ethernet ex_cap =
+    VOk (mkVPacket (Some (VEthernet2 (0, 50))) [VVlan (14, 36); VVlan (18, 32); VVlan (22, 28)] None None) /\
+  vres_of (SlicedPacket.from_ethernet ex_cap) = wire_ethernet ex_cap /\
+  exts_announced ex_cap (first_type ex_cap EnEthernet) [VVlan (14, 36); VVlan (18, 32); VVlan (22, 28)]
+    = Some 33024.
+Proof. split; [|split]; vm_compute; reflexivity. Qed.
+Definition ex_msm_ip : bytes :=
+  [8;0; 0;0;0;9] ++ [69;0;0;20; 0;0;0;0; 64;17;0;0; 1;2;3;4; 5;6;7;8].
+Example C03_dispatch_ex_macsec_modified :
+  wire_ether_type ex_msm_ip 35045 =
+    VOk (mkVPacket (Some (VEtherPayload (mkVEp 35045 LsSlice (0, 26))))
+           [VMacsec (0, 6) (VMpModified (6, 20))] None None) /\
+  vres_of (SlicedPacket.from_ether_type 35045 ex_msm_ip) = wire_ether_type ex_msm_ip 35045 /\
+  exts_announced ex_msm_ip (first_type ex_msm_ip (EnEtherType 35045)) [VMacsec (0, 6) (VMpModified (6, 20))]
+    = None.
+Proof. split; [|split]; vm_compute; reflexivity. Qed.
+
+(* ---- converse: a described view IS the answer (audit round 3, C03 ranked item 4) ----------
+   `nested` (windows), `desc` (IP payload descriptors) and `dispatch` (layer kinds, cap, content
+   rules) together are a complete description: the reference decoder accepts bs with view v
+   exactly when v is described for bs, so the described view is unique, and the slicer MODEL
+   accepts with view v exactly when v is described and rejects exactly when no described view
+   exists -- clause (a) "layer sequence" and both directions of "fails exactly when" against a
+   description that is not a decoder. *)
+From EP Require Import Parse.WireAccepts.
+
+Theorem C03_wire_accepts_iff : forall bs e v,
+  wire_of bs e = VOk v <-> nested bs v /\ desc bs v /\ dispatch bs e v.
+Proof. exact wire_accepts_iff. Qed.
+Print Assumptions C03_wire_accepts_iff.
+
+Theorem C03_described_unique : forall bs e v v',
+  nested bs v /\ desc bs v /\ dispatch bs e v ->
+  nested bs v' /\ desc bs v' /\ dispatch bs e v' -> v = v'.
+Proof. exact described_unique. Qed.
+Print Assumptions C03_described_unique.
+
+Theorem C03_strict_accepts_iff : forall bs e v, bytes_ok bs ->
+  ((exists p, strict_of bs e = Ok p /\ view p = v) <->
+   nested bs v /\ desc bs v /\ dispatch bs e v).
+Proof. exact strict_accepts_iff. Qed.
+Print Assumptions C03_strict_accepts_iff.
+
+Theorem C03_strict_rejects_iff : forall bs e, bytes_ok bs ->
+  ((exists err, strict_of bs e = Err err) <->
+   forall v, ~ (nested bs v /\ desc bs v /\ dispatch bs e v)).
+Proof. exact strict_rejects_iff. Qed.
+Print Assumptions C03_strict_rejects_iff.
+
+Example C03_accepts_pin : forall bs et,
+  wire_of bs EnEthernet = wire_ethernet bs /\ wire_of bs EnLinuxSll = wire_linux_sll bs /\
+  wire_of bs (EnEtherType et) = wire_ether_type bs et /\ wire_of bs EnIp = wire_from_ip bs /\
+  strict_of bs EnEthernet = SlicedPacket.from_ethernet bs /\
+  strict_of bs EnLinuxSll = SlicedPacket.from_linux_sll bs /\
+  strict_of bs (EnEtherType et) = SlicedPacket.from_ether_type et bs /\
+  strict_of bs EnIp = SlicedPacket.from_ip bs.
+Proof. repeat split. Qed.
+(* non-vacuity: both sides of the two model-level equivalences occur -- ex_pkt is accepted
+   (so its view is described), ex_pkt cut inside the UDP header is rejected (so no view of
+   those 41 bytes is described) *)
+Example C03_accepts_ex :
+  bytes_ok ex_pkt /\ (exists p, strict_of ex_pkt EnEthernet = Ok p /\
+     view p = mkVPacket (Some (VEthernet2 (0, 50))) [VVlan (14, 36)]
+                (Some (VIpv4 (18, 20) None (mkVIp 17 false LsIpv4HeaderTotalLen (38, 12))))
+                (Some (VUdp (38, 12)))) /\
+  bytes_ok (firstn 41 ex_pkt) /\ (exists err, strict_of (firstn 41 ex_pkt) EnEthernet = Err err).
+Proof.
+  split; [apply bytes_okb_spec; vm_compute; reflexivity|].
+  split; [eexists; split; vm_compute; reflexivity|].
+  split; [apply bytes_okb_spec; vm_compute; reflexivity|eexists; vm_compute; reflexivity].
+Qed.
+(* ==== round3 c03disp end ==== *)
